@@ -9,9 +9,11 @@ import (
 	gomavlib "github.com/bluenviron/gomavlib/v3"
 	"github.com/bluenviron/gomavlib/v3/pkg/dialects/ardupilotmega"
 	"github.com/bluenviron/gomavlib/v3/pkg/dialects/common"
+	"github.com/bluenviron/gomavlib/v3/pkg/frame"
 	"pgregory.net/rapid"
 
 	"verifharness/evid"
+	"verifharness/ref"
 	"verifharness/sim"
 )
 
@@ -246,4 +248,114 @@ func TestC11BacklogBelowQueueAfterOverflow(t *testing.T) {
 			rec.Sample("backlog", desc)
 		}
 	})
+}
+
+// TestC11ForwardedFramesOfANamesake: a frame handed to WriteFrame* goes out as it is, whoever its header says wrote it -
+// also when that is a station with the node's own system and component id (a second ground station left at the same
+// ids, the node's own frames coming back through a loop). Messages the node originates in between keep their own
+// gapless sequence per link.
+func TestC11ForwardedFramesOfANamesake(t *testing.T) {
+	rec := evid.New(t, "C11", "a node (system 42, component 17) on 2..3 custom links writes 10..40 items in generated order: its own messages (WriteMessageAll) and frames to forward (WriteFrameAll / WriteFrameExcept(nil)) whose headers name generated authors - among them (42,17), (42,18), (41,17) - with their own sequence numbers, flags and checksums; every link must carry the forwarded frames byte for byte and the originated messages with sequence numbers 0,1,2,...; non-trivial = a forwarded frame whose author has the node's ids between two originated messages; distinct by hash of the parameters")
+	rec.Require("forwarded-frame-whose-author-has-the-node's-ids")
+	evid.Check(t, rec, evid.N(60, 300), func(t *rapid.T) {
+		drawNodeInit(t)
+		nch := rapid.IntRange(2, 3).Draw(t, "nch")
+		v2 := rapid.Bool().Draw(t, "v2")
+		n0 := rapid.IntRange(10, 40).Draw(t, "items")
+		kinds := rapid.SliceOfN(rapid.IntRange(0, 4), n0, n0).Draw(t, "kinds") // 0,1: own message; 2: namesake; 3: same system; 4: stranger
+		desc := fmt.Sprintf("links=%d v2=%v items=%v", nch, v2, kinds)
+		pipes := make([]*sim.Pipe, nch)
+		var endpoints []gomavlib.EndpointConf
+		for i := range pipes {
+			pipes[i] = sim.NewPipe()
+			endpoints = append(endpoints, gomavlib.EndpointCustom{ReadWriteCloser: pipes[i]})
+		}
+		n := &gomavlib.Node{Endpoints: endpoints, Dialect: ardupilotmega.Dialect, OutVersion: gomavlib.V1, OutSystemID: nodeSys, OutComponentID: nodeComp, HeartbeatDisable: true}
+		if v2 {
+			n.OutVersion = gomavlib.V2
+		}
+		if err := initNode(&n); err != nil {
+			t.Fatalf("BROKEN: %v", err)
+		}
+		r := sim.StartRecorder(n, sim.Pacing{Kind: "fast"}, nil)
+		defer func() {
+			closeNode(n, bound) //nolint:errcheck
+			r.WaitClosed(bound)
+		}()
+		if _, ok := openCustom(n, r, pipes); !ok {
+			t.Fatalf("BROKEN: channels did not open")
+		}
+		var want [][]byte // nil = an originated message
+		namesake := false
+		for i, k := range kinds {
+			if k <= 1 {
+				if err := n.WriteMessageAll(&common.MessageDebug{TimeBootMs: uint32(i), Ind: 9}); err != nil {
+					t.Fatalf("write refused: %v", err)
+				}
+				want = append(want, nil)
+				continue
+			}
+			fr, f := fwdFrame(1, i, v2, i%3 == 0)
+			author := [][2]byte{{nodeSys, nodeComp}, {nodeSys, nodeComp + 1}, {nodeSys - 1, nodeComp}}[k-2]
+			f.Sys, f.Comp = author[0], author[1]
+			f.Checksum = f.ChecksumFor(lay(debugMsgID).CRCExtra)
+			switch ff := fr.(type) {
+			case *frame.V2Frame:
+				ff.SystemID, ff.ComponentID, ff.Checksum = f.Sys, f.Comp, f.Checksum
+			case *frame.V1Frame:
+				ff.SystemID, ff.ComponentID, ff.Checksum = f.Sys, f.Comp, f.Checksum
+			}
+			var err error
+			if i%2 == 0 {
+				err = n.WriteFrameAll(fr)
+			} else {
+				err = n.WriteFrameExcept(nil, fr)
+			}
+			if err != nil {
+				t.Fatalf("forwarding refused: %v", err)
+			}
+			want = append(want, f.Bytes())
+			if k == 2 && i > 0 && i+1 < len(kinds) {
+				namesake = true
+			}
+		}
+		for c, p := range pipes {
+			if !p.WaitWrites(len(want), bound) {
+				t.Fatalf("%s: link %d carries %d of %d items", desc, c, p.NumWrites(), len(want))
+			}
+			seq := 0
+			for i, b := range p.Writes()[:len(want)] {
+				if want[i] != nil {
+					if string(b) != string(want[i]) {
+						msg := fmt.Sprintf("%s\nlink %d item %d: a frame handed to WriteFrame* (author %d/%d, its own sequence number, flags and checksum) went out as %x, it was %x", desc, c, i, want[i][3+4*b2i(v2)], want[i][4+4*b2i(v2)], b, want[i])
+						evid.ReplayNote("C11", "TestC11ForwardedFramesOfANamesake", msg)
+						t.Fatalf("%s", msg)
+					}
+					continue
+				}
+				f, _, err := ref.Parse(b)
+				if err != nil || f.Sys != nodeSys || f.Comp != nodeComp || int(f.Seq) != seq%256 {
+					msg := fmt.Sprintf("%s\nlink %d item %d: originated message went out as %x (parse error %v): want system %d component %d sequence number %d", desc, c, i, b, err, nodeSys, nodeComp, seq%256)
+					evid.ReplayNote("C11", "TestC11ForwardedFramesOfANamesake", msg)
+					t.Fatalf("%s", msg)
+				}
+				seq++
+			}
+		}
+		var cls []string
+		if namesake {
+			cls = append(cls, "forwarded-frame-whose-author-has-the-node's-ids")
+		}
+		rec.Case(namesake, evid.HashS(desc), cls...)
+		if rec.WantSample("namesake") {
+			rec.Sample("namesake", desc)
+		}
+	})
+}
+
+func b2i(b bool) int {
+	if b {
+		return 1
+	}
+	return 0
 }
